@@ -53,7 +53,7 @@ the first event in the FIFO queue (C11_async_initial_first), and the log's trigg
 decrease (C03_history): its block precedes every other block. -/
 theorem C05_initial_first (c : Cfg) (e : EventId) (hcur : c.cur = none) (hq : c.queue = []) :
     (enqueue e (start c).1).1.queue =
-      [{ tid := c.nextTid, event := initialEv }, { tid := c.nextTid + 1, event := e }] :=
+      [{ tid := c.nextTid, event := initialEv, internal := true }, { tid := c.nextTid + 1, event := e }] :=
   C11_async_initial_first c e hcur hq
 
 /-- rtc=False is not available on the async engine: construction raises InvalidDefinition and
